@@ -456,6 +456,8 @@ class Check(object):
             return self.gen_medium(r, ctx)
         if self.long == 'quiet':
             return self.gen_long(r, ctx, 'quiet-pairs')
+        if self.long == 'scattered':
+            return self.gen_long(r, ctx, 'scattered')
         if self.long:
             return self.gen_long(r, ctx)
         npool = r.choice([4, 6, 10, 16, 30])
@@ -538,7 +540,7 @@ class Check(object):
 
     def gen_long(self, r, ctx, style=None):
         big = ctx is None or ctx.thorough
-        size = r.randint(4000, 10000) if big else r.randint(1500, 4000)
+        size = r.randint(4000, 10000) if (big or style == 'scattered') else r.randint(1500, 4000)
         style = style or r.choice(['scattered', 'scattered', 'cross-eighth', 'tail', 'alternating', 'mixed', 'quiet-pairs'])
         ops = [['update', [['list', list(range(size))]]]]
         live = list(range(size))
@@ -756,6 +758,8 @@ def run(ctx):
     explore(ctx, Check('medium'), {'quick': 150, 'thorough': 6000}[ctx.tier], 'medium')
     explore(ctx, Check(True), {'quick': 1, 'thorough': 20}[ctx.tier], 'long')
     explore(ctx, Check('quiet'), {'quick': 2, 'thorough': 30}[ctx.tier], 'quiet')
+    # hundreds of separate one-slot holes under the 1/8 dead fraction: the more-than-384-intervals branch, every tier
+    explore(ctx, Check('scattered'), {'quick': 1, 'thorough': 10}[ctx.tier], 'scattered')
 
 
 def replay(witness):
